@@ -11,7 +11,7 @@ import (
 	"go.etcd.io/bbolt/verifh/refdec"
 )
 
-const c07Rule = "C04-style histories weighted towards bucket deletion (nested, on clean and modified parents), MoveBucket, rollbacks, commits failing on a size limit, reopenings with re-drawn options, all page sizes; after every commit, failed commit and reopen the independent decoder's page accounting must be anomaly-free (every page below the high-water mark exactly one of meta / freelist / reachable once / listed free once; key order; element bounds; file length) and Stats, Tx.Check, Tx.Page and the in-memory free list must agree with it. Non-trivial = some commit left pending (freed) pages after a bucket deletion, move or bulk delete, in a database that has >=3 tree levels or overflow pages. Distinct = SHA-256 of the op log."
+const c07Rule = "C04-style histories weighted towards bucket deletion (nested, on clean and modified parents), MoveBucket, rollbacks, commits failing on a size limit or an injected I/O fault, reopenings with re-drawn options, all page sizes; after every commit, failed commit and reopen the independent decoder's page accounting must be anomaly-free (every page below the high-water mark exactly one of meta / freelist / reachable once / listed free once; key order; element bounds; file length) and Stats, Tx.Check, Tx.Page and the in-memory free list must agree with it. Non-trivial = some commit left pending (freed) pages after a bucket deletion, move or bulk delete, in a database that has >=3 tree levels or overflow pages. Distinct = SHA-256 of the op log."
 
 func TestC07(t *testing.T) {
 	col := newCollector("C07", c07Rule)
@@ -31,6 +31,10 @@ func c07Case(rt *rapid.T, col *collector) {
 		failCase(rt, replayDoc{Property: "C07", Kind: "history", Ops: e.Log}, v)
 	}
 	c07Install(e)
+	e.AllowCommitErr = true
+	if rapid.IntRange(0, 3).Draw(rt, "withfaults") == 0 {
+		cfg.Faults = 3
+	}
 	if rapid.IntRange(0, 6).Draw(rt, "maxsize") == 0 {
 		o := gen.Opts(rt, cfg)
 		o.MaxSize = rapid.SampledFrom([]int{48 << 10, 96 << 10, 200 << 10}).Draw(rt, "maxsizeval")
@@ -63,16 +67,7 @@ func c07Install(e *drv.Env) {
 		_, v := checkAccounting(e, "after open")
 		return v
 	}
-	e.AfterFailure = func(e *drv.Env, err error) *drv.Violation {
-		if !isMaxSize(err) {
-			return drv.Violf("commit failed with %v (only the size limit may fail here)", err)
-		}
-		if v := e.CheckCommitted("after failed commit"); v != nil {
-			return v
-		}
-		_, v := checkAccounting(e, "after failed commit")
-		return v
-	}
+	e.AfterFailure = failureOracle // size limit or an injected I/O fault; ends with the accounting oracle
 }
 
 func replayHistoryC07(t *testing.T, d replayDoc) *drv.Violation {
